@@ -764,6 +764,52 @@ def part_stab(sh, np, ode, rec, params):
 
 # ------------------------------------------------------------------------------------
 
+def part_int_containers(sh, np, ode, params):
+    """Whole-number problems in integer containers (int lists / int64 arrays) against the
+    same numbers in float64 arrays: SolveNewmark and SolveCDF must not care."""
+    import warnings
+    nsl = PLAN[sh.tier]["nm"][0]
+    ncase = 12 if sh.tier == "quick" else 150
+    for q in range(ncase):
+        idx = params["slice"] * ncase + q
+        r = core.rng(sh.seed, "C17", "intc", idx)
+        n = int(r.integers(1, 5))
+        m = r.integers(1, 6, n)
+        k = r.integers(50, 4000, n)
+        b = r.integers(0, 12, n)
+        h = float(1.0 / [64, 250, 1000][idx % 3])
+        nt = int(r.integers(3, 30))
+        F = r.integers(-50, 51, (n, nt))
+        d0 = r.integers(-3, 4, n) if idx % 4 else None
+        v0 = r.integers(-3, 4, n) if idx % 3 else None
+        B = b
+        if idx % 2 and n >= 2:
+            B = np.diag(b) + np.diag(np.ones(n - 1, int), 1) + np.diag(np.ones(n - 1, int), -1)
+        as_list = idx % 3 == 0
+        conv = (lambda x: None if x is None else x.tolist()) if as_list else (lambda x: x)
+        fl = lambda x: None if x is None else np.asarray(x, float)
+        case = {"int_containers": idx, "n": n, "m": m.tolist(), "b": np.asarray(B).tolist(),
+                "k": k.tolist(), "h": h, "nt": nt, "as_list": as_list}
+        sh.case(["intc", idx], True, sample=case)
+        for name, cls in (("newmark", ode.SolveNewmark), ("cdf", ode.SolveCDF)):
+            tags = {"part": "intc", "solver": name}
+            try:
+                with warnings.catch_warnings():
+                    warnings.simplefilter("ignore")
+                    si = cls(conv(m), conv(np.asarray(B)), conv(k), h).tsolve(
+                        F, d0=conv(d0), v0=conv(v0))
+                    sf = cls(fl(m), fl(B), fl(k), h).tsolve(fl(F), d0=fl(d0), v0=fl(v0))
+            except Exception as e:
+                sh.violation("exception:int-containers", case, {"exc": repr(e)[:300]}, tags)
+                continue
+            for nm in ("d", "v", "a"):
+                w = np.asarray(getattr(sf, nm))
+                scale = np.abs(w).max(axis=1, keepdims=True) + 1e-300
+                sh.check_close(f"int-containers:{name}:{nm}", np.asarray(getattr(si, nm)),
+                               w, 1e-11 * scale * np.ones_like(w), case, tags)
+        sh.count("intc:" + ("lists" if as_list else "int64"))
+
+
 def run_shard(sh, params):
     import numpy as np
     from pyyeti import ode
@@ -771,6 +817,7 @@ def run_shard(sh, params):
     part = params["part"]
     if part == "nm":
         part_nm(sh, np, ode, rec, params)
+        part_int_containers(sh, np, ode, params)
     elif part == "cdf":
         part_cdf(sh, np, ode, rec, params)
     elif part == "ladder":
